@@ -10,11 +10,30 @@ import (
 	"sort"
 
 	corev1 "k8s.io/api/core/v1"
+
+	"github.com/NVIDIA/KAI-scheduler/pkg/scheduler/framework"
+	"github.com/NVIDIA/KAI-scheduler/pkg/scheduler/plugins/proportion"
+	rs "github.com/NVIDIA/KAI-scheduler/pkg/scheduler/plugins/proportion/resource_share"
 )
 
-type ProgressOracle struct{ BaseOracle }
+type ProgressOracle struct {
+	BaseOracle
+	fairGPU map[string]float64 // queue -> GPU fair share of the current session (-1 unlimited), read through the proportion hook
+}
 
-func (ProgressOracle) Prop() string { return "C05" }
+func (*ProgressOracle) Prop() string { return "C05" }
+
+func (o *ProgressOracle) SessionOpen(r *Run, ssn *framework.Session) {
+	o.fairGPU = nil
+	attrs, _ := proportion.QueueAttributesForSim(ssn.PluginForSim("proportion"))
+	if attrs == nil {
+		return
+	}
+	o.fairGPU = map[string]float64{}
+	for id, qa := range attrs {
+		o.fairGPU[string(id)] = qa.ResourceShare(rs.GpuResource).FairShare
+	}
+}
 
 type freeCap struct {
 	cpu, mem, pods, gpus int64
@@ -61,7 +80,7 @@ func plainPod(p *RefPod) bool {
 	return len(s.NodeSelector) == 0 && s.Affinity == nil && len(s.SchedulingGates) == 0 && len(s.Volumes) == 0 && len(s.ResourceClaims) == 0
 }
 
-func (ProgressOracle) AfterCycle(r *Run, cycle int, all []Decision) {
+func (o *ProgressOracle) AfterCycle(r *Run, cycle int, all []Decision) {
 	pre := r.Pre
 	if pre == nil {
 		return
@@ -272,6 +291,10 @@ func (ProgressOracle) AfterCycle(r *Run, cycle int, all []Decision) {
 				cycle, gname, g.Queue, len(pend), d0.CPUm, d0.MemB, d0.GPUs, need, fit, where)
 		}
 	}
+	if r.S.Profile == "unobstructed-departments" {
+		o.departmentReclaim(r, cycle, placedAny)
+		return
+	}
 	// ---- (B) unobstructed reclaim / preempt (only in worlds the generator built for it)
 	if r.S.Profile != "unobstructed" {
 		return
@@ -453,6 +476,148 @@ func (ProgressOracle) AfterCycle(r *Run, cycle int, all []Decision) {
 				if !placedAny[g.Name] {
 					r.Fail("C05", "unobstructed_preempt_missing", "cycle %d: workload %s (priority %d) of queue %s obtained nothing although %d strictly lower-priority preemptible workloads of its own queue are running (%d pending workloads in total)", cycle, g.Name, g.Priority, g.Queue, victims, len(pending))
 				}
+			}
+		}
+	}
+}
+
+// departmentReclaim: (C) unobstructed reclaim between sibling leaf queues of one department (two-level hierarchy,
+// interchangeable single-pod 1-GPU workloads on interchangeable nodes). A pending workload of leaf L is judged when
+//   - L with ALL its pending workloads stays within L's deserved GPU quota and within L's fair share of this session,
+//   - a sibling leaf V of the same department holds at least as many preemptible running pods above its deserved quota
+//     as the department has such entitled pending workloads (so the order among them does not matter),
+//   - the department itself is within its deserved quota and fair share, so that no workload of another department may
+//     take anything from it (neither reclaim strategy applies at department level), and the swap inside the department
+//     leaves the department's allocation unchanged.
+// Then every strategy / saturation check of the reclaim validator passes by construction and the workload must obtain
+// a node (bound or nominated) in this cycle, whatever other departments' pending workloads do before or after it.
+func (o *ProgressOracle) departmentReclaim(r *Run, cycle int, placedAny map[string]bool) {
+	pre, cfg := r.Pre, r.S.Config
+	if o.fairGPU == nil {
+		return
+	}
+	hasReclaim := false
+	for _, a := range cfg.Actions {
+		if a == "reclaim" {
+			hasReclaim = true
+		}
+	}
+	if !hasReclaim {
+		return
+	}
+	for _, p := range pre.Pods {
+		if p.Pod.Spec.SchedulerName != SchedulerName || !plainPod(p) || p.Demand.GPUs != 1 || p.Deleting {
+			return
+		}
+	}
+	var n0 *corev1.Node
+	for _, name := range sortedKeys(pre.Nodes) {
+		n := pre.Nodes[name]
+		if !plainNode(n, cfg) || len(n.Spec.Taints) > 0 {
+			return
+		}
+		if n0 == nil {
+			n0 = n
+		} else if a, b := n.Status.Allocatable[GPUResource], n0.Status.Allocatable[GPUResource]; a.Cmp(b) != 0 {
+			return
+		}
+	}
+	for _, g := range pre.Groups {
+		if len(g.Pods) != 1 || len(g.Sets) != 1 {
+			return
+		}
+	}
+	for _, q := range pre.Queues {
+		if q.PreemptMR != nil || q.ReclaimMR != nil || q.GPU.Limit >= 0 {
+			return
+		}
+		if q.Parent != "" && (pre.Queues[q.Parent] == nil || pre.Queues[q.Parent].Parent != "") {
+			return // two levels only
+		}
+	}
+	alloc := map[string]float64{}       // leaf and department -> GPUs of active pods
+	preemptible := map[string]float64{} // leaf -> GPUs of preemptible active pods
+	pendingIn := map[string][]*RefGroup{}
+	candidates := map[string]float64{} // department -> preemptible pods that are or may become active in this cycle
+	for _, gname := range sortedKeys(pre.Groups) {
+		g := pre.Groups[gname]
+		q := pre.Queues[g.Queue]
+		if q == nil || q.Parent == "" {
+			return
+		}
+		switch p := g.Pods[0]; {
+		case p.Active:
+			alloc[g.Queue]++
+			alloc[q.Parent]++
+			if g.Preemptible {
+				preemptible[g.Queue]++
+				candidates[q.Parent]++
+			}
+		case p.Pending:
+			pendingIn[g.Queue] = append(pendingIn[g.Queue], g)
+			if g.Preemptible {
+				candidates[q.Parent]++ // may be placed by allocate earlier in this cycle and then be taken as a victim
+			}
+		default:
+			return // terminating / gated pods: capacity in flux
+		}
+	}
+	within := func(q string, extra float64) bool {
+		rq := pre.Queues[q]
+		f, ok := o.fairGPU[q]
+		return rq.GPU.Quota >= 0 && alloc[q]+extra <= rq.GPU.Quota+1e-9 && ok && (f < 0 || alloc[q]+extra <= f+1e-9)
+	}
+	for _, dname := range sortedKeys(pre.Queues) {
+		d := pre.Queues[dname]
+		if d.Parent != "" || !within(dname, 0) {
+			continue
+		}
+		var entitled []*RefGroup
+		entitledLeaf := map[string]bool{}
+		for _, l := range d.Children {
+			if n := len(pendingIn[l]); n > 0 && within(l, float64(n)) {
+				entitled = append(entitled, pendingIn[l]...)
+				entitledLeaf[l] = true
+			}
+		}
+		if len(entitled) == 0 {
+			continue
+		}
+		ok := false
+		for _, v := range d.Children {
+			if entitledLeaf[v] || pre.Queues[v].GPU.Quota < 0 {
+				continue
+			}
+			over := alloc[v] - pre.Queues[v].GPU.Quota
+			if min(over, preemptible[v]) >= float64(len(entitled)) && preemptible[v] == alloc[v] {
+				ok = true
+			}
+		}
+		if !ok {
+			continue
+		}
+		r.Probe("c05_department_reclaim_judged")
+		// The solver takes potential victims in the victim order of the whole queue tree, interleaving pods of other
+		// departments that may not be reclaimed from, and never drops a potential victim again: such a pod spoils every
+		// later scenario (recorded finding). The clean case is the one where no other department holds preemptible pods (running, or pending and
+		// possibly placed by allocate earlier in the cycle).
+		rule := "unobstructed_department_reclaim_missing"
+		for _, oname := range sortedKeys(pre.Queues) {
+			od := pre.Queues[oname]
+			if od.Parent != "" || oname == dname {
+				continue
+			}
+			if candidates[oname] > 0 {
+				rule = "unobstructed_department_reclaim_missing_behind_other_department"
+			}
+		}
+		if rule == "unobstructed_department_reclaim_missing" {
+			r.Probe("c05_department_reclaim_judged_no_foreign_victims")
+		}
+		for _, g := range entitled {
+			if !placedAny[g.Name] {
+				r.Fail("C05", rule, "cycle %d: workload %s keeps leaf queue %s (and department %s) within deserved quota and fair share, a sibling leaf of the department holds enough preemptible pods above its quota, yet the workload obtained nothing in this cycle",
+					cycle, g.Name, g.Queue, dname)
 			}
 		}
 	}
